@@ -461,7 +461,7 @@ impl<'a> ListGen<'a> {
         for _ in 0..nf {
             let name = self.fresh("t");
             let k = self.k();
-            let (src, shape) = match self.r.below(8) {
+            let (src, shape) = match self.r.below(11) {
                 0 => ("#<'t>['list<'t>, 'list<'t>] { | =[Nil, a] => a | =[Cons[h, t], a] => [t, Cons[h, a]] ^ }".to_string(), 1),
                 1 => ("#<'t>'list<'t> { | =Cons[h, Nil] => h | =Cons[_, t] => t ^ }".to_string(), 0),
                 2 => ("#<'t>['list<'t>, 't] { | =[Nil, d] => d | =[Cons[h, _], _] => h }".to_string(), 2),
@@ -469,16 +469,27 @@ impl<'a> ListGen<'a> {
                 4 => ("#<'t>['list<'t>, 'int] { | =[Nil, a] => a | =[Cons[_, t], a] => [t, [a, 1] __integer_add__] ^ }".to_string(), 4),
                 5 => (format!("#<'t>['list<'t>, 'list<'t>] {{ | =[Cons[h, Cons[g, t]], a] => [t, Cons[g, Cons[h, a]]] ^ | =[Cons[h, Nil], a] => Cons[h, a] | =[Nil, a] => a }}"), 1),
                 6 => (format!("#<'t>['list<'t>, 'int] {{ | =[Cons[h, Nil], {k}] => [h] | =[Cons[_, t], a] => [t, [a, 1] __integer_subtract__] ^ | =[Nil, _] => [] }}"), 4),
-                _ => ("#<'t>'list<'t> { | =Nil => None | =Cons[h, _] => Some[h] }".to_string(), 0),
+                7 => ("#<'t>'list<'t> { | =Nil => None | =Cons[h, _] => Some[h] }".to_string(), 0),
+                // higher order: map / filter / fold with the function passed on by reference
+                8 => ("#<'t, 'u>['list<'t>, #'t -> 'u, 'list<'u>] { | =[Nil, _, a] => a | =[Cons[h, t], f, a] => [t, &f, Cons[h f, a]] ^ }".to_string(), 5),
+                9 => ("#<'t>['list<'t>, #'t -> (Ok | []), 'list<'t>] { | =[Nil, _, a] => a | =[Cons[h, t], p, a], h p => [t, &p, Cons[h, a]] ^ | =[Cons[_, t], p, a] => [t, &p, a] ^ }".to_string(), 6),
+                _ => ("#<'t, 'a>['list<'t>, 'a, #['a, 't] -> 'a] { | =[Nil, a, _] => a | =[Cons[h, t], a, f] => [t, [a, h] f, &f] ^ }".to_string(), 7),
             };
             steps.push(format!("{name} = {src}"));
             funs.push((name, shape));
         }
+        // functions to pass: one over a captured variable, one that wraps, a predicate
+        let (k1, k2, k3) = (self.k(), self.k(), self.k());
+        let v = [-1, 0, 1][self.r.usize(3)];
+        steps.push(format!("kk = {k1}"));
+        steps.push(format!("inc = #'int {{ [~, kk] {} }}", self.op()));
+        steps.push("wr = #'int { A[~] }".to_string());
+        steps.push(format!("pr = #'int {{ [~, {k2}] __integer_compare__ ={v} }}"));
         let mut obs = vec![];
         let no = 2 + self.r.usize(3);
         for _ in 0..no {
             let (name, shape) = funs[self.r.usize(funs.len())].clone();
-            let kind = self.r.below(3);
+            let kind = if shape >= 5 { 0 } else { self.r.below(3) };
             let l = self.list_lit_of(kind);
             let elem = match kind {
                 0 => self.k().to_string(),
@@ -496,7 +507,10 @@ impl<'a> ListGen<'a> {
                     let o = if self.r.chance(1, 2) { format!("Some[{elem}]") } else { "None".to_string() };
                     format!("[{o}, {elem}] {name}")
                 }
-                _ => format!("[{l}, {}] {name}", self.k()),
+                4 => format!("[{l}, {}] {name}", self.k()),
+                5 => format!("[{l}, &{}, Nil] {name}", if self.r.chance(1, 2) { "inc" } else { "wr" }),
+                6 => format!("[{l}, &pr, Nil] {name}"),
+                _ => format!("[{l}, {k3}, &{}] {name}", ["__integer_add__", "__integer_multiply__", "__integer_subtract__"][self.r.usize(3)]),
             };
             obs.push(format!("{call}{}", self.post()));
         }
